@@ -370,8 +370,9 @@ class ScopeFactory(_D):
         st.check("P5:a-scope-context-is-built", z3.BoolVal(ca is not None))
         if ca is None:
             return
-        d = ca.kw.get("disposables")
-        st.check("P5:state-arguments-are-passed-unchanged", ca.kw.get("state") == self.state)
+        na = named_args(ca, "trace_id", "name", "logger", "state", "disposables", "completion")
+        d = na["disposables"]
+        st.check("P5:state-arguments-are-passed-unchanged", z3.BoolVal(False) if na["state"] is None else na["state"] == self.state)
         if self.shape == 0:
             st.check("P5:no-disposables-stay-none", V.is_none(d))
         elif self.shape == 1:
